@@ -326,6 +326,12 @@ func registerBig(m *Machine) {
 		}
 		return set(m, fr, a[0], res)
 	}
+	bigIntEqual := func(m *Machine, fr *Frame, a []Value) Value {
+		x, y := m.bigGet(fr, a[0]), m.bigGet(fr, a[1])
+		return bigEq(x, y)
+	}
+	N["crypto/ecdsa.bigIntEqual"] = bigIntEqual
+	N["crypto/rsa.bigIntEqual"] = bigIntEqual
 	N["(*math/big.Int).String"] = func(m *Machine, fr *Frame, a []Value) Value {
 		p := a[0].(*Value)
 		if p == nil {
